@@ -12,7 +12,7 @@ RULE = ('one run = one connection whose output is known by construction (canned 
         'through a small receive buffer, with injected short writes / EAGAIN on the client socket, in '
         'threadless and thread-per-connection mode; non-trivial = at least one send() to the client was short '
         'or hit EAGAIN or the client paused reading while output was pending; distinct = distinct event-log digests')
-PROBES = ['short_idle_timeout', 'err400', 'err404', 'err407', 'err502', 'pieces', 'static', 'upstream_close', 'threaded',
+PROBES = ['tunnel_class', 'short_idle_timeout', 'err400', 'err404', 'err407', 'err502', 'pieces', 'static', 'upstream_close', 'threaded',
           'client_paused', 'teardown_deferred', 'upstream_closed_with_output_pending', 'eof', 'reset_after_data']
 COMPONENTS = {
     'real': ['proxy/core/base/tcp_server.py', 'proxy/http/handler.py', 'proxy/core/connection/connection.py',
@@ -26,7 +26,7 @@ ASSUMPTIONS = ['the client keeps reading (it may pause for a bounded time)',
                'the expected output of the canned error pages is the repository\'s own packet constant: the property '
                'is about delivery, not content (content is C06)']
 TIERS = {
-    'quick': {'runs': 8000, 'budget_s': 40, 'max_out': 6000, 'max_units': 300},
+    'quick': {'runs': 8000, 'budget_s': 40, 'max_out': 200000, 'max_units': 300},
     'thorough': {'runs': 600000, 'budget_s': 900, 'watchdog_s': 600, 'max_out': 2 << 20, 'max_units': 4000},
 }
 
@@ -57,9 +57,15 @@ def run_one(tape: Any, cfg: Dict[str, Any], forbid: FrozenSet[str] = frozenset()
     with World(tape) as w:
         scen.sched_swarm(w, tape)
         w.dns['up.example'] = ['10.0.0.1']
-        mode = ['err400', 'err404', 'err407', 'err502', 'pieces', 'static', 'upstream_close'][
-            tape.weighted([1, 1, 1, 1, 4, 2, 4], 'mode')]
+        mode = ['err400', 'err404', 'err407', 'err502', 'pieces', 'static', 'upstream_close', 'tunnel_class'][
+            tape.weighted([1, 1, 1, 1, 4, 2, 4, 2], 'mode')]
         threaded = g.feature('threaded', 0.25)
+        if mode == 'tunnel_class':
+            # the library's tunnel base class (proxy.core.base.BaseTcpTunnelHandler, as used by examples/https_connect_tunnel.py)
+            if g.note('tunnel_base_class'):
+                threaded = False
+            else:
+                mode = 'upstream_close'
         w.probe(mode)
         if threaded:
             w.probe('threaded')
@@ -120,6 +126,12 @@ def run_one(tape: Any, cfg: Dict[str, Any], forbid: FrozenSet[str] = frozenset()
             opts['min_compression_length'] = 1 << 30
             with open(os.path.join(static_dir, 'f%d.bin' % n), 'rb') as f:
                 file_bytes = f.read()
+        elif mode == 'tunnel_class':
+            from proxy.http.responses import PROXY_TUNNEL_ESTABLISHED_RESPONSE_PKT
+            n = scen.size(tape, 400, cfg['max_out'], 'upsize')
+            upstream_resp = scen.body_bytes(tape, n, 'up')
+            expected = bytes(PROXY_TUNNEL_ESTABLISHED_RESPONSE_PKT) + upstream_resp
+            req = b'CONNECT up.example:443 HTTP/1.1\r\nHost: up.example:443\r\n\r\n'
         else:
             n = scen.size(tape, 400, cfg['max_out'], 'upsize')
             body = scen.body_bytes(tape, n, 'up')
@@ -141,7 +153,17 @@ def run_one(tape: Any, cfg: Dict[str, Any], forbid: FrozenSet[str] = frozenset()
         flags = make_flags(threadless=not threaded, threaded=threaded, local_executor=1, timeout=idle_timeout,
                            enable_web_server=True, enable_static_server=(mode == 'static'),
                            static_server_dir=static_dir, plugins=plugins, **opts)
+        if mode == 'tunnel_class':
+            from ..tunnelclass import tunnel_flags
+            opts['client_recvbuf_size'] = max(opts.get('client_recvbuf_size', 1 << 20), 128)   # the class wants the CONNECT in one read
+            flags = tunnel_flags(**opts)
         h: Any = L3(w, flags) if threaded else L1(w, flags)
+        if mode == 'tunnel_class':
+            close_kind = ('close',)
+            maxchunk = max(floor, [1 << 16, 512, 16][tape.draw(3, 'upchunk')])
+            delay = [0.0, 0.0, 0.05, 2.0][tape.draw(4, 'updelay')]
+            tops: List[Any] = [('send', upstream_resp, 'dribble', maxchunk)] + ([('sleep', delay)] if delay else []) + [close_kind]
+            org = Origin(w, '10.0.0.1', 443, lambda i: list(tops), name='up', cap_in=caps[0], cap_out=caps[1], read_mode='chunky')
         if mode == 'upstream_close':
             close_kind = [('close',), ('reset',)][tape.weighted([4, 1], 'upclose')]
             if close_kind == ('reset',) and not g.note('upstream_reset'):
@@ -216,7 +238,7 @@ def run_one(tape: Any, cfg: Dict[str, Any], forbid: FrozenSet[str] = frozenset()
                     w.probe('reset_after_data' if cl.saw_reset else 'eof')
                     lim = 1.0
                     ref_t = cl.t_last_rx or 0.0
-                    if mode == 'upstream_close' and org.conns and org.conns[0].done_time is not None:
+                    if mode in ('upstream_close', 'tunnel_class') and org.conns and org.conns[0].done_time is not None:
                         # the proxy ends the connection because the upstream closed: measure from then
                         ref_t = max(ref_t, org.conns[0].done_time)
                     if cl.t_eof is not None and cl.t_eof - ref_t > lim:
